@@ -6,7 +6,6 @@ import traceback
 from vlib import core
 from vlib import ttlvref as T
 from vlib import c19_wire as W
-from vlib import c19_codec as C
 from vlib.c19_ops import OPS, plain
 from vlib import c19_ops2, c19_ops3  # noqa: F401  (register the operations)
 
@@ -14,7 +13,7 @@ PID = "C19"
 
 # pie methods whose failure branch dereferences result.result_message.value (result objects)
 FAILURE_STATUS = 1
-FAULT_LABEL = {"truncate": "truncated", "garbage-tag": "undecodable", "garbage-body": "undecodable",
+FAULT_LABEL = {"truncate": "truncated", "cut-item": "truncated", "garbage-tag": "undecodable", "garbage-body": "undecodable",
                "wrong-operation": "mismatched-operation", "extra-item": "extra-batch-item"}
 
 
@@ -65,6 +64,20 @@ def apply_fault(data, fault):
     k = fault["kind"]
     if k in ("wrong-operation", "extra-item"):
         return data
+    if k == "cut-item":
+        # stream ends exactly at an item boundary: before the last leaf item / before the last
+        # child of the last structure that has more than one child.  What is left may still be
+        # parseable, so only the length-prefixed framing can notice that the stream ended early.
+        node = T.parse_one(data)
+        size = None
+        while "children" in node and node["children"]:
+            last = node["children"][-1]
+            if fault["level"] == "child" and len(node["children"]) > 1:
+                size = 8 + (last["length"] + 7) // 8 * 8
+            node = last
+        if fault["level"] == "leaf" or size is None:
+            size = 8 + (node["length"] + 7) // 8 * 8
+        return data[:len(data) - size]
     if k == "truncate":
         # cut strictly inside the message: at least one byte is missing
         at = fault["at"] % len(data)     # negative offsets count from the end
@@ -205,7 +218,12 @@ def judge(op, api, v, outcome, wire, buckets, label):
 
 
 def _tb(e):
-    return "".join(traceback.format_tb(e.__traceback__)[-3:])
+    """The frames inside the code under test (harness frames and line numbers would make the
+    stored details unstable)."""
+    frames = [f for f in traceback.extract_tb(e.__traceback__)
+              if "/kmip/" in f.filename.replace("\\", "/") and "/vlib/" not in f.filename]
+    return "".join("  %s:%d in %s: %s\n" % (f.filename.split("/kmip/", 1)[1], f.lineno, f.name, f.line)
+                   for f in frames[-3:])
 
 
 def is_refusal(e):
